@@ -198,3 +198,51 @@ PROPS["C32"] = dict(
     harnesses=[H("c32_" + n, tier=t, stubbing=True, encodes=["DeviceHandler::{new,add_device,remove_device,set_keyboard,set_display,get_dev_id,set_port}", "<DeviceHandler as ExternalDevice>::{io_read,io_write}", "SimDevice dispatch"], bound="history " + n + " + probe", timeout=1500)
                for n, t in [("add_rw", "quick"), ("add_add", "quick"), ("add_remove_add", "quick"), ("kb_remove_add", "quick"), ("ds_write", "quick"), ("kb_ds_read", "quick"), ("add_add_remove_add", "thorough")]],
 )
+
+PROPS["C07"] = dict(
+    level="model_checking", jobs=1,
+    claim="Statement level, all 65536 words: disassemble_line yields .fill <word> exactly for words below x0200 and non-canonical words; otherwise an instruction statement whose mnemonic is the alias (RET, GETC, OUT/PUTC, PUTS, IN, PUTSP, HALT) or base opcode the ISA table prescribes, and which pass 2 of the assembler (into_sim_instr at an ARBITRARY address + encode) turns back into the same word.",
+    note="The round trip through TEXT (Display -> lexer -> parser) is NOT covered: the logos DFA and the parser cannot be executed on symbolic text within reach (DESIGN.md section 9). What is decided is the statement a user would see and that it re-encodes to the word.",
+    design_ref="DESIGN.md section 4 (C07)",
+    bounds="word: any u16; reassembly address: any u16; no loops",
+    outside="printing the statement and re-parsing the printed text",
+    assumptions=["S-hash, S-rand, S-upper (str::to_uppercase only reachable through the infeasible label arm)", "spec::instr as oracle"],
+    harnesses=[H("c07_disassemble_all_words", stubbing=True, timeout=1200, encodes=["ast::asm::disassemble_line", "try_disassemble_line", "SimInstr::decode", "AsmInstr::into_sim_instr", "replace_pc_offset", "SimInstr::encode", "SymbolTable::new"], bound="w: any u16, pc: any u16")],
+)
+PROPS["C05"] = dict(
+    level="model_checking", jobs=3,
+    claim="Token -> operand half, full width: for every Unsigned(u16)/Signed(i16) token and every field (imm5, offset6, PCoffset9, PCoffset11 signed; trapvect8 and 16-bit .orig/.blkw operands unsigned; .fill either signedness) the operand is accepted exactly when the token's value fits the field and then carries that value; Reg(n) is accepted iff n <= 7; the imm5-or-register operand picks the right alternative.",
+    note="The lexeme -> token half (decimal/#/x notations, leading zeros, R<digits>) runs the logos DFA and integer parsing on symbolic text, which does not terminate within the caps (DESIGN.md section 9): NOT claimed. .blkw's non-zero rule lives in Directive::parse and is covered in the thorough tier through the token-level parser hook.",
+    design_ref="DESIGN.md section 5b (C05)",
+    bounds="token payload: any u16 / i16 / u8; no loops",
+    outside="text -> token (lexer validators)",
+    assumptions=["S-fmt: alloc::fmt::format -> empty string (only error messages)"],
+    harnesses=[
+        H("c05_signed_fields", encodes=["<Offset<i16,N> as TokenParse>::{match_,convert} for N=5,6,9,11", "Offset::new"], bound="full width"),
+        H("c05_unsigned_fields", encodes=["<Offset<u16,N> as TokenParse> for N=8,16", "IntLiteral::match_"], bound="full width"),
+        H("c05_reg_and_either", stubbing=True, encodes=["<Reg as TokenParse>", "<Either<L,R> as TokenParse>"], bound="full width"),
+    ],
+)
+PROPS["C25"] = dict(
+    level="model_checking", jobs=4,
+    claim="Position arithmetic: for a source of 6 bytes with 0..=3 newlines at arbitrary (strictly increasing) positions, count_lines is newlines + 1 and get_pos_pair(i) for every i <= len + 10 returns the line whose start is `col` bytes before i, with indices past the end placed on the last line.",
+    note="Uses the hook SourceInfo::verif_from_parts to provide the newline index directly. Building the index from text (match_indices) and the whitespace trimming in line_span/read_line scan a str and blow up CBMC even for 4 bytes (DESIGN.md section 9): NOT claimed.",
+    design_ref="DESIGN.md section 5 (C25)",
+    bounds="source length 6 (concrete), <= 3 newlines at symbolic positions, index <= 16; unwind 6",
+    outside="SourceInfo::new / from_string; line_span and read_line trimming; longer sources (the arithmetic is uniform in the length)",
+    assumptions=["hook builds exactly the index from_string would build for some text with those newline positions"],
+    harnesses=[H("c25_pos_nl%d" % n, encodes=["SourceInfo::{count_lines,get_pos_pair,get_line,raw_line_span}"], bound="%d newline(s)" % n) for n in range(4)],
+)
+PROPS["C10"] = dict(
+    level="model_checking", jobs=2,
+    claim="(a)+(c) gate, entry state and polling discipline: the irq class of the K-step family - a pending vectored interrupt is taken iff its (clamped) priority exceeds PSR's, enters supervisor mode at mem[x100+vect] with old PSR/PC pushed on the supervisor stack, CC=z, priority set, exactly one poll before any memory access, lower-priority requests fall through to the fetch, external interrupts surface as SimErr::Interrupt. (b) arbitration: DeviceHandler::poll_interrupt over three devices with symbolic requests delivers a request of maximal priority and polls each device exactly once.",
+    note="(d) transparency of a register-preserving handler (entry ; RTI brackets to the identity) is a thorough-tier two-step harness. Timing 'only at an instruction boundary' follows from the single poll at the start of _step_inner (asserted through the device call log).",
+    design_ref="DESIGN.md section 3 (C10)",
+    bounds="one step (a,c); three devices, one poll (b); unwind 8/11",
+    outside="handler bodies; nesting beyond one entry; keyboard/timer as interrupt sources (C33/C34 at device level)",
+    assumptions=_K_ASSUME,
+    harnesses=[
+        H("c10_arbitration", stubbing=True, encodes=["<DeviceHandler as ExternalDevice>::poll_interrupt", "Interrupt::{vectored,external,priority}", "SimDevice::poll_interrupt"], bound="3 devices, any requests"),
+        H("c10_irq_entry", module="c10::k", cover_tags=["mem", "calls", "depth"], stubbing=True, kani_args=_K_ARGS, encodes=_K_ENC, heavy=True, timeout=1800, bound="one step with a pending interrupt, everything else symbolic"),
+    ],
+)
